@@ -173,7 +173,35 @@ def run(ctx):
             ctx.count("exhaustive_function_name_strings")
             check_string(ctx, {"s": "".join(seq)})
     ctx.info["exhaustive_function_name_strings"] = f"all {m} strings of 4..{fb} characters over {small}"
-    strat = st.one_of(supported, supported, supported, with_foreign).map(lambda s: {"s": s})
+    # long lexemes: a digit/dot run, a letter run (ending in / starting with / without the function name), a blank run and a
+    # bracket run of every length up to 70 and around every power of two up to 4096 (quick) / 65536 (thorough), at four
+    # offsets from the start of the text - maximal munch and the function-name test must not depend on a lexeme's length
+    lengths = sorted(set(range(1, 71)) | {p + d for e in range(7, 13 if ctx.tier == "quick" else 17) for p in [2 ** e] for d in (-1, 0, 1)})
+    k = 0
+    for L in lengths:
+        runs = [
+            "1" * L,
+            ("1234567890" * (L // 10 + 1))[:L],
+            "1" * (L // 2) + "." + "1" * (L - L // 2 - 1),
+            "x" * L,
+            ("xyzabc" * (L // 6 + 1))[:L],
+            " " * L,
+            "(" * L,
+        ]
+        if L > 3:
+            runs += ["x" * (L - 3) + "sgn", "sgn" + "x" * (L - 3), "x" * ((L - 3) // 2) + "sgn" + "x" * (L - 3 - (L - 3) // 2)]
+        for r in runs:
+            for pre, post in (("", ""), ("2+", "*y"), (" ", " sgn(3)"), ("sgn(", ")")):
+                k += 1
+                if k % ctx.nshards != ctx.shard:
+                    continue
+                ctx.count("evaluations")
+                ctx.count("long_lexeme_strings")
+                check_string(ctx, {"s": pre + r + post})
+    ctx.info["long_lexemes"] = f"{k} strings: 10 run kinds x {len(lengths)} lengths (1..70 and 2^e-1, 2^e, 2^e+1 up to {max(lengths)}) x 4 contexts"
+    long_run = st.builds(lambda c, n, tail: c * n + tail, st.sampled_from(["1", "7.", "x", "ab", " ", "(", "-"]), st.integers(15, 300), st.sampled_from(["", "sgn", "sgn(", ".5", "x"]))
+    supported_long = st.builds(lambda a, r, b: a + r + b, supported, long_run, supported)
+    strat = st.one_of(supported, supported, supported, with_foreign, supported_long).map(lambda s: {"s": s})
     hyp_run(ctx, "strings", strat, check_string, ctx.n(10000, 150000))
     if ctx.tier == "thorough":
         from . import fuzz
